@@ -247,6 +247,12 @@ void runCase(verif::Run& run, const std::vector<Tree>& trees, const CaseId& id, 
     std::unique_ptr<Integrator> integ = makeInteg(id.integ, sys);
     integ->setAccuracy(ACC); integ->setReturnEveryInternalStep(true);
     const bool approxDiff = (id.wrap == W_DIFFA) || (id.wrap == W_DIFF && tree.depth > 0);
+    // Measure::Variable reports Stage::Model as the depends-on stage of its value, but setValue() invalidates only the stage given
+    // at construction (>= Instance at run time).  Everything cached "at Model stage" (Plus/Minus/Scale results, Extreme's update
+    // entries, ...) of an operand without time dependence therefore survives a setValue().  All oracle failures of that class
+    // after the change are keyed under this prefix.
+    const bool staleClass = id.hist == H_SETVAR && !tree.hasTime && !tree.hasSin;
+    std::string pfx;
 
     try { integ->initialize(init); }
     catch (const std::exception& e) {
@@ -293,22 +299,22 @@ void runCase(verif::Run& run, const std::vector<Tree>& trees, const CaseId& id, 
             const double fNow = F(c, t);
             switch (id.wrap) {
                 case W_NONE:
-                    run.residual("value/expression", std::fabs(v - fNow) / sc, 1e-13, wh, rp);
+                    run.residual(pfx + "value/expression", std::fabs(v - fNow) / sc, 1e-13, wh, rp);
                     break;
                 case W_INT: {
                     double exact = intBase[c] + cfInt(ex.cf[c], tInit, t, vhc[c]);
                     double err = std::fabs(v - exact);
-                    if (id.integ == I_SEE) run.residual("integral/fixed-step-first-order-bound", err / (HFIX * TEND * cfDer1Max(ex.cf[c]) / 2 + 1e-12 * sc), 2.0, wh, rp);
-                    else run.residual(std::string("integral/error-controlled/") + IN_[id.integ], err / (ACC * sc), 50.0, wh, rp);
+                    if (id.integ == I_SEE) run.residual(pfx + "integral/fixed-step-first-order-bound", err / (HFIX * TEND * cfDer1Max(ex.cf[c]) / 2 + 1e-12 * sc), 2.0, wh, rp);
+                    else run.residual(pfx + std::string("integral/error-controlled/") + IN_[id.integ], err / (ACC * sc), 1e4, wh, rp);
                     break;
                 }
                 case W_DIFF: case W_DIFFA: {
-                    if (!approxDiff) { run.residual("derivative/analytic", std::fabs(v - cfDer(ex.cf[c], t)) / (cfDer1Max(ex.cf[c]) + sc), 1e-13, wh, rp); break; }
+                    if (!approxDiff) { run.residual(pfx + "derivative/analytic", std::fabs(v - cfDer(ex.cf[c], t)) / (cfDer1Max(ex.cf[c]) + sc), 1e-13, wh, rp); break; }
                     double d;
                     if (t == start.t) d = D[c][nbuf - 1];
                     else { d = (fNow - start.f[c]) / (t - start.t); if (Dgood[nbuf - 1]) d = 2 * d - D[c][nbuf - 1]; }
                     double h = std::max(t - start.t, 1e-300);
-                    run.residual("derivative/documented-recurrence/" + ikey, std::fabs(v - d) / (sc / std::min(h, 1.0) * (nb + 1) + std::fabs(d)), 1e-12, wh, rp);
+                    run.residual(pfx + "derivative/documented-recurrence/" + ikey, std::fabs(v - d) / (sc / std::min(h, 1.0) * (nb + 1) + std::fabs(d)), 1e-12, wh, rp);
                     if (newEnd) D[c].push_back(d);
                     break;
                 }
@@ -316,16 +322,16 @@ void runCase(verif::Run& run, const std::vector<Tree>& trees, const CaseId& id, 
                     double e = G[0].f[c];
                     for (int i = 1; i < nbuf; ++i) e = extFold(id.wrap, e, G[i].f[c]);
                     e = extFold(id.wrap, e, fNow);
-                    run.residual("extreme/documented-fold/" + ikey, std::fabs(v - e) / sc, 1e-13, wh, rp);
+                    run.residual(pfx + "extreme/documented-fold/" + ikey, std::fabs(v - e) / sc, 1e-13, wh, rp);
                     break;
                 }
                 case W_DELAY1: case W_DELAY2: {
                     int cls; double hl; double ref = delayRef(G, nbuf, c, t - tau, cls, hl);
                     static const char* CN[] = {"interpolated", "before-start", "single-sample", "extrapolated"};
                     run.count(std::string("delay-class:") + CN[cls]);
-                    run.residual("delay/documented-buffer-algorithm/" + ikey, std::fabs(v - ref) / sc, 1e-12, wh, rp);
+                    run.residual(pfx + "delay/documented-buffer-algorithm/" + ikey, std::fabs(v - ref) / sc, 1e-12, wh, rp);
                     if (cls == 0 && !(vhc[c].tSet > t - tau - hl && vhc[c].tSet <= t - tau + hl))     // accuracy of linear interpolation: h^2/8 max|f''|
-                        run.residual("delay/interpolation-accuracy", std::fabs(v - F(c, t - tau)) / (hl * hl / 8 * cfDer2Max(ex.cf[c]) + 1e-12 * sc), 1.0 + 1e-9, wh, rp);
+                        run.residual(pfx + "delay/interpolation-accuracy", std::fabs(v - F(c, t - tau)) / (hl * hl / 8 * cfDer2Max(ex.cf[c]) + 1e-12 * sc), 1.0 + 1e-9, wh, rp);
                     break;
                 }
             }
@@ -336,7 +342,7 @@ void runCase(verif::Run& run, const std::vector<Tree>& trees, const CaseId& id, 
             for (int i = 1; i < nbuf; ++i) if (extNew(id.wrap, e, G[i].f[0])) { e = G[i].f[0]; te = G[i].t; }
             if (extNew(id.wrap, e, F(0, t))) te = t;
             double got = ext.getTimeOfExtremeValue(x);
-            run.residual("extreme/time-of-extreme-value/" + ikey, std::fabs(got - te), 1e-13, wh, rp);
+            run.residual(pfx + "extreme/time-of-extreme-value/" + ikey, std::fabs(got - te), 1e-13, wh, rp);
         }
         if (approxDiff && (id.wrap == W_DIFF || id.wrap == W_DIFFA) && newEnd) Dgood.push_back(1);
         if (newEnd) { Sample s; s.t = t; for (int c = 0; c < NC; ++c) s.f[c] = F(c, t); hMaxSeen = std::max(hMaxSeen, t - G.back().t); G.push_back(s); }
@@ -347,7 +353,7 @@ void runCase(verif::Run& run, const std::vector<Tree>& trees, const CaseId& id, 
             State cp(x); sys.realize(cp, Stage::Acceleration);
             const T& v2 = m.getValue(cp);
             double dmax = 0; for (int c = 0; c < NC; ++c) dmax = std::max(dmax, std::fabs(Num<T>::get(v2, c) - Num<T>::get(val, c)));
-            run.residual("copy/value-equals-original/" + wname, dmax / scaleAll, id.wrap == W_INT ? 1e-13 : 1e-12, wh, rp);
+            run.residual(pfx + "copy/value-equals-original/" + wname, dmax / scaleAll, id.wrap == W_INT ? 1e-13 : 1e-12, wh, rp);
             if (!haveFirstCopy && t >= 0.3) { firstCopy = cp; haveFirstCopy = true; firstCopyT = t; sys.realize(firstCopy, Stage::Acceleration); const T& v3 = m.getValue(firstCopy); for (int c = 0; c < NC; ++c) firstCopyVal[c] = Num<T>::get(v3, c); }
         }
     };
@@ -372,6 +378,7 @@ void runCase(verif::Run& run, const std::vector<Tree>& trees, const CaseId& id, 
                     for (size_t k = 0; k < ex.vars.size(); ++k) ex.vars[k].setValue(adv, Num<T>::make(PP->v1[ex.varSlots[k]]));
                     for (int c = 0; c < NC; ++c) { vhc[c].tSet = t; for (int k = 0; k < 3; ++k) vhc[c].v1[k] = PP->v1[k][c]; }
                     integ->reinitialize(Stage::Instance, false);
+                    if (staleClass) pfx = "Variable-setValue-not-seen-by-Model-stage-caches/";
                     run.count(ex.vars.empty() ? "set-variable-history-without-variable" : "set-variable-history-applied");
                     // the state is judged again at the same time with the new variable value (as the same step end)
                     if (G.size() > 1) { G.pop_back(); if (!Dgood.empty() && Dgood.size() > G.size()) { Dgood.pop_back(); for (int c = 0; c < NC; ++c) D[c].pop_back(); } }
